@@ -131,9 +131,38 @@ func (f *FedSpec) closeRefs() {
 						changed = true
 					}
 				}
+				// a service that returns values of an interface knows every type that implements it
+				if target.Kind == "INTERFACE" {
+					for _, impl := range f.Types {
+						if impl.Kind == "OBJECT" && contains(impl.Ifaces, target.Name) {
+							iat := f.declaredAt(impl)
+							for _, o := range fl.Owners {
+								if !contains(iat, o) {
+									impl.Extra = append(impl.Extra, o)
+									iat = append(iat, o)
+									changed = true
+								}
+							}
+						}
+					}
+				}
 			}
-			// an interface is declared wherever one of its implementers is, and conversely
-			// implementers of a declared interface need not be declared
+			// a service that declares an interface can resolve every object behind it: it declares all implementers
+			if t.Kind == "INTERFACE" {
+				for _, impl := range f.Types {
+					if impl.Kind == "OBJECT" && contains(impl.Ifaces, t.Name) {
+						iat := f.declaredAt(impl)
+						for _, s := range f.declaredAt(t) {
+							if !contains(iat, s) {
+								impl.Extra = append(impl.Extra, s)
+								iat = append(iat, s)
+								changed = true
+							}
+						}
+					}
+				}
+			}
+			// an interface is declared wherever one of its implementers is
 			if t.Kind == "OBJECT" {
 				for _, in := range t.Ifaces {
 					if in == "Node" {
@@ -276,7 +305,7 @@ func (g *fedGen) Spec() *FedSpec {
 	}
 	for _, n := range names {
 		t := &TypeSpec{Name: n, Kind: "OBJECT", Ifaces: []string{"Node"}}
-		if iface != nil && g.r.Intn(2) == 0 {
+		if iface != nil && (g.r.Intn(2) == 0 || n == names[0]) {
 			t.Ifaces = append(t.Ifaces, "Named")
 			// the interface field, owned together with the interface declaration
 			t.Fields = append(t.Fields, &FieldSpec{Name: "title", Type: TypeRef{Named: "String"}})
